@@ -9,6 +9,8 @@ _MODULES = {
     "C05": ("scen_api", "C05"),
     "C06": ("scen_api", "C06"),
     "C07": ("scen_fs", "C07"),
+    "C08": ("scen_c08", "C08"),
+    "C10": ("scen_c10", "C10"),
     "C11": ("scen_fs", "C11"),
     "C12": ("scen_c12", "C12"),
     "C13": ("scen_api", "C13"),
